@@ -137,7 +137,8 @@ def d_int(lo=None, hi=None):
   def ok(v, partial):
     del partial
     return isinstance(v, int) and (lo is None or v >= lo) and (hi is None or v <= hi)
-  valid = [('in-range', str(x)) for x in ({lo, hi, 3} - {None})]
+  mid = 3 if (lo is None or lo <= 3) and (hi is None or hi >= 3) else (lo if lo is not None else hi)
+  valid = [('in-range', str(x)) for x in ({lo, hi, mid} - {None})]
   invalid = [('wrong-type', "'s'"), ('wrong-type', '1.5'), ('wrong-type', '[1]'), ('None', 'None')]
   if lo is not None:
     invalid.append(('below-min', str(lo - 1)))
@@ -180,11 +181,11 @@ def d_bool():
               [('wrong-type', '1'), ('wrong-type', '0'), ('wrong-type', "'True'"), ('None', 'None')])
 
 
-def d_enum():
-  d = Desc('Enum', "T.Enum('a', ['a', 'b', 3])", lambda v, p: (isinstance(v, str) or _isint(v)) and v in ('a', 'b', 3),
+def d_enum(default='a'):
+  d = Desc('Enum' + ('' if default == 'a' else f'={default}'), f"T.Enum({default!r}, ['a', 'b', 3])", lambda v, p: (isinstance(v, str) or _isint(v)) and v in ('a', 'b', 3),
               [('member', "'b'"), ('member', '3'), ('member', "'a'")],
               [('non-member', "'c'"), ('non-member', '4'), ('non-member', "['a']"), ('None', 'None')])
-  d.has_default, d.default = True, 'a'     # an Enum's first argument is its default
+  d.has_default, d.default = True, default     # an Enum's first argument is its default
   return d
 
 
@@ -441,6 +442,7 @@ def vocabulary(tier):
       inner_obj,
       d_union([i05, d_str('^[a-c]+$')]),
       d_any(),
+      d_list(inner_dict, 0, 2),
   ]
   if tier != 'quick':
     voc += [
@@ -449,11 +451,10 @@ def vocabulary(tier):
         noneable(d_str('^[a-c]+$')),
         noneable(d_list(i05, 1, 2)),
         d_list(d_list(i05, 0, 2), 0, 2),
-        d_list(inner_dict, 0, 2),
         d_tuple([d_bool()]),
         d_dict([('n', inner_dict), ('m', noneable(d_list(i05, 0, 1)))], name='Dict(n{p,q},m?)'),
         d_union([d_bool(), d_list(i05, 0, 1), inner_dict]),
-        with_default(d_enum(), "'b'"),
+        d_enum('b'),
         frozen(d_str(), "'z'"),
         d_list(inner_obj, 0, 2),
     ]
@@ -478,20 +479,45 @@ class Subject:
     self.partial = partial        # the value was explicitly made partial
     self.scope_partial = scope_partial   # ops run under `with pg.allow_partial(True)`
 
-  def build(self):
+  @property
+  def shared_src(self):
+    """Class definitions and the spec `S`: built once, shared between runs
+    (a failure is always re-confirmed on a completely fresh build)."""
     pre = self.root_desc.pre
-    if pre and self.setup.startswith(pre):
-      base = _PRE_ENV.get(pre)
-      if base is None:
-        base = dict(_ENV)
-        _exec(pre, base)        # class definitions: once per distinct source
-        _PRE_ENV[pre] = base
-      env = dict(base)
-      _exec(self.setup[len(pre):], env)
-      return env
-    env = dict(_ENV)
-    _exec(self.setup, env)
+    if not self.setup.startswith(pre):
+      return ''
+    rest = self.setup[len(pre):]
+    if rest.startswith('S='):
+      pre += rest.split('\n', 1)[0] + '\n'
+    return pre
+
+  def build(self, fresh=False):
+    shared = self.shared_src
+    if fresh:
+      _PRE_ENV.pop(shared, None)
+    base = _PRE_ENV.get(shared)
+    if base is None:
+      base = dict(_ENV)
+      base['__specs__'] = {}
+      if shared:
+        _exec(shared, base)
+      if not fresh:
+        _PRE_ENV[shared] = base
+    env = dict(base)
+    _exec(self.setup[len(shared):], env)
     return env
+
+  def forget(self):
+    _PRE_ENV.pop(self.shared_src, None)
+
+
+def _spec_of(desc, env):
+  """The real spec for `desc`, used only to re-apply to plain copies."""
+  cache = env['__specs__']
+  spec = cache.get(desc.src)
+  if spec is None:
+    spec = cache[desc.src] = _eval(desc.src, env)
+  return spec
 
 
 def _check_real(value, spec, partial):
@@ -522,20 +548,16 @@ class Run:
     self.prefix = []
     self.done = []
     self.broken = self.dead = False
-    if fresh:
-      _PRE_ENV.pop(subject.root_desc.pre, None)
     try:
-      self.env = subject.build()
+      self.env = subject.build(fresh)
     except Exception as e:  # pylint: disable=broad-except
       # Not even the valid initial value can be built.
-      self.env = dict(root=None, x=[] if subject.kind == 'list' else {})
+      self.env = dict(root=None, x=[] if subject.kind == 'list' else {}, __specs__={})
       self.broken = self.dead = True
       if rec is not None:
         rec.case(f'{subject.kind}.initial-valid-value', subject.setup, False,
                  f'constructing a valid initial value raised {type(e).__name__}: {str(e)[:200]}',
                  'import pyglove as pg\nT=pg.typing;M=pg.MISSING_VALUE\n' + subject.setup)
-    if fresh:
-      _PRE_ENV.pop(subject.root_desc.pre, None)
 
   @property
   def root(self):
@@ -572,7 +594,7 @@ class Run:
     img = plain(value)
     if not desc.ok(img, partial) or is_missing(img):
       return f'model of {desc.name} rejects stored state {img!r}'
-    spec = _eval(desc.src, self.env)
+    spec = _spec_of(desc, self.env)
     return _check_real(value, spec, partial)
 
   def step(self, op, key):
@@ -591,12 +613,12 @@ class Run:
 
   def _step(self, op, key):
     ok, cid, msg, wit, raised = self._judge(op)
-    cached = bool(self.sub.root_desc.pre) and not self.fresh
+    cached = not self.fresh
     if not ok and cached:
       # Class definitions (and the default values inside their specs) are
       # shared between runs of one subject: confirm the failure on freshly
       # built classes so that state leaked by an earlier run cannot cause it.
-      _PRE_ENV.pop(self.sub.root_desc.pre, None)
+      self.sub.forget()
       fresh = Run(None, self.sub, repeat=False, fresh=True)
       for o in self.done:
         fresh._judge(o)  # pylint: disable=protected-access
@@ -604,7 +626,7 @@ class Run:
       ok, cid, msg, wit, raised = fresh._judge(op)  # pylint: disable=protected-access
       self.env, self.prefix, self.fresh = fresh.env, fresh.prefix, True
     elif cached and any(t in op['src'] for t in ('M', 'Obj()', 'clear()', 'partial(')):
-      _PRE_ENV.pop(self.sub.root_desc.pre, None)   # spec defaults were (re)applied
+      self.sub.forget()   # spec defaults were (re)applied
     self.rec.case(cid, key, ok, msg, wit)
     self.done.append(op)
     self.broken = not ok
@@ -750,12 +772,21 @@ def _subseq(a, b):
   return all(any(x == y for y in it) for x in a)
 
 
+def _edit_distance(a, b):
+  prev = list(range(len(b) + 1))
+  for i, x in enumerate(a, 1):
+    cur = [i]
+    for j, y in enumerate(b, 1):
+      cur.append(min(prev[j] + 1, cur[j - 1] + 1, prev[j - 1] + (0 if x == y else 1)))
+    prev = cur
+  return prev[-1]
+
+
 def _list_batch_ok(n_valid):
-  """A failed batch may have applied at most its n_valid valid elements."""
+  """A failed batch may have applied some of its n_valid valid elements: each
+  applied element replaces or inserts one item."""
   def g(xb, xa):
-    if len(xa) == len(xb):
-      return sum(1 for a, b in zip(xa, xb) if a != b) <= n_valid
-    return len(xb) < len(xa) <= len(xb) + n_valid and _subseq(xb, xa)
+    return len(xa) >= len(xb) and _edit_distance(xb, xa) <= n_valid
   return g
 
 
@@ -1250,7 +1281,7 @@ def _step_partial_result(run, op, key):
     img = plain(target)
     if not desc.ok(img, True):
       return f'model of {desc.name} rejects stored partial state {img!r}'
-    return _check_real(target, _eval(desc.src, run.env), True)
+    return _check_real(target, _spec_of(desc, run.env), True)
   run.invariant = inv
   return run.step(op, key)
 
@@ -1307,7 +1338,7 @@ def drv_dict_histories(tier, seed):
   rec = Recorder(
       'C03', 'typed pg.Dict / pg.Object: mutation histories',
       scope='field specs Int[0,5], Int default, List(Int,1,2), Dict(p,q=d); modes full/partial/scope; all histories of '
-            'length 2 over the per-state op alphabet restricted to single-location writes/removals (sampled 1/13 x 1/13 in quick, 1/3 x 1/3 in thorough), '
+            'length 2 over the per-state op alphabet restricted to single-location writes/removals (sampled 1/13 x 1/13 in quick, 1/5 x 1/5 in thorough), '
             'seeded random histories of length <=8 over the whole alphabet; checks after every step')
   i05 = d_int(0, 5)
   fds = [i05, with_default(d_int(0, 5), '2'), d_list(i05, 1, 2),
@@ -1321,7 +1352,7 @@ def drv_dict_histories(tier, seed):
         if probe.dead:
           continue
         first = [o for o in dict_ops(sub, fd, plain(probe.x)) if not o.get('result')]
-        stride = 13 if tier == 'quick' else 3
+        stride = 13 if tier == 'quick' else 5
         for i, op1 in enumerate(first):
           if i % stride:
             continue
@@ -1332,7 +1363,7 @@ def drv_dict_histories(tier, seed):
             r2 = Run(rec, sub)
             r2.step(op1, (fd.name, sub.kind, mode, op1['src']))
             r2.step(op2, (fd.name, sub.kind, mode, op1['src'], op2['src']))
-        for h in range(12 if tier == 'quick' else 250):
+        for h in range(10 if tier == 'quick' else 120):
           r = Run(rec, sub)
           for j in range(rnd.randint(3, 8)):
             ops = [o for o in dict_ops(sub, fd, plain(r.x)) if not o.get('result')]
